@@ -52,6 +52,16 @@ import (
 
 func init() { engines["codec"] = codecEngine }
 
+// plantStaleTmp puts a long, undecodable "<file>.tmp" next to each file of a key store folder: what a run that died
+// inside a Save may have left behind. Whatever way Save writes its files, what is loaded afterwards must be exactly
+// what was saved (a Save that goes through a temporary file must not inherit the leftover's bytes).
+func plantStaleTmp(base, beaconID string) {
+	junk := bytes.Repeat([]byte("Stale = \"left by an interrupted save\"\n[[[\n"), 300)
+	for _, f := range []string{"groups/drand_group.toml", "groups/dist_key.private", "key/drand_id.private", "key/drand_id.public"} {
+		_ = os.WriteFile(base+"/"+beaconID+"/"+f+".tmp", junk, 0o600)
+	}
+}
+
 var (
 	pointT  = reflect.TypeOf((*kyber.Point)(nil)).Elem()
 	scalarT = reflect.TypeOf((*kyber.Scalar)(nil)).Elem()
@@ -687,6 +697,7 @@ func codecEngine(args []string, in *bufio.Scanner, out *bufio.Writer) {
 				ref, x := copyGroup(g), copyGroup(g)
 				before := dumpStr(x)
 				fsStore := key.NewFileStore(base, fmt.Sprintf("c%d", caseNo))
+				plantStaleTmp(base, fmt.Sprintf("c%d", caseNo))
 				err := fsStore.SaveGroup(x)
 				var back *key.Group
 				if err == nil {
@@ -755,6 +766,7 @@ func codecEngine(args []string, in *bufio.Scanner, out *bufio.Writer) {
 			try(cs, "share-file", func() {
 				before := dumpStr(sh)
 				fsStore := key.NewFileStore(base, fmt.Sprintf("c%d", caseNo))
+				plantStaleTmp(base, fmt.Sprintf("c%d", caseNo))
 				err := fsStore.SaveShare(sh)
 				var back *key.Share
 				if err == nil {
@@ -771,6 +783,7 @@ func codecEngine(args []string, in *bufio.Scanner, out *bufio.Writer) {
 				mustBeFull(p)
 				before := dumpStr(p)
 				fsStore := key.NewFileStore(base, fmt.Sprintf("c%d", caseNo))
+				plantStaleTmp(base, fmt.Sprintf("c%d", caseNo))
 				err = fsStore.SaveKeyPair(p)
 				var back *key.Pair
 				if err == nil {
